@@ -194,8 +194,6 @@ def apply_op(tiers: list, op: dict) -> StepResult:
                 r.in_domain = False  # empty reference: documented error case
             r.result = call(lambda: T.dejitter(U, op["maxdiff"]))
         elif kind == "morph":
-            if len(T.entries) == 0 or len(U.entries) == 0:
-                r.in_domain = False  # nothing to morph: degenerate
             flt = None if op["filter"] is None else (lambda lab, f=op["filter"]: lab == f)
             r.result = call(lambda: T.morph(U, flt))
     elif kind == "new":
